@@ -136,6 +136,8 @@ type actorT struct {
 	cbCount int
 	cancel  context.CancelFunc
 	failed  []string // sources whose journal failed to open in GetJournals
+	// verdict of the limit oracle of GetJournals (set by the actor before it parks, read by the scheduler after)
+	limitViol string
 
 	// scheduler's view
 	status   int // stParked, stSpinning, stFinished, stDead
@@ -518,7 +520,28 @@ func (a *actorT) exec(p Proc) {
 			}
 		}
 	case "query":
+		// a single client, every journal opens: the number of partitions the condition selects is known
+		matching := -1
+		if len(w.actors) == 1 && p.Abort < 0 {
+			matching = 0
+			for _, r := range tindex.VC14Snapshot(w.ti) {
+				if has(p.M, tagOfLine(r.Tags)) {
+					matching++
+				}
+			}
+		}
 		res, err := w.ps.GetJournals(ctx, srcCond(p.M), p.Limit)
+		if matching >= 0 {
+			// O: exactly Limit partitions are served, Limit+1 and more are refused (never a silent subset)
+			switch {
+			case matching <= p.Limit && err != nil:
+				a.limitViol = fmt.Sprintf("GetJournals over %d partitions with limit %d was refused: %v", matching, p.Limit, err)
+			case matching <= p.Limit && len(res) != matching:
+				a.limitViol = fmt.Sprintf("GetJournals over %d partitions with limit %d returned %d journals", matching, p.Limit, len(res))
+			case matching > p.Limit && err == nil:
+				a.limitViol = fmt.Sprintf("GetJournals over %d partitions with limit %d was served (%d journals)", matching, p.Limit, len(res))
+			}
+		}
 		if err != nil {
 			return
 		}
